@@ -51,6 +51,14 @@ partial def tyOf : Sexp → Option Ty
   | .list (.atom "pat" :: ps) => (ps.mapM (fun (e : Sexp) => e.bytes?)).map .pattern
   | .list [.atom "tref", s] => s.bytes?.map .tref
   | .atom "semver" => some (.semverT [0x2a] matchAllR)          -- `DefaultSemVerType()`: the range `*`
+  | .list [.atom "hash", k, v, lo, hi] => do
+      let k ← tyOf k; let v ← tyOf v; let l ← lo.int?; let h ← hi.int?
+      if intOk l && intOk h && l ≤ h then some (.hash k v l h) else none
+  | .list [.atom "like", t, n] => do let t ← tyOf t; let n ← n.bytes?; pure (.like t n)
+  | .atom "callable" => some (.callable none)
+  | .list [.atom "runtime", rt, n, .atom "n"] => do let rt ← rt.bytes?; let n ← n.bytes?; pure (.runtime rt n none)
+  | .list [.atom "runtime", rt, n, p] => do let rt ← rt.bytes?; let n ← n.bytes?; let p ← p.bytes?; pure (.runtime rt n (some p))
+  | .list (.atom "callable" :: t :: ts) => ((t :: ts).mapM tyOf).map fun ts => .callable (some ts)
   | .list (.atom "semver" :: orig :: rs) => do
       let o ← orig.bytes?; let rs ← rs.mapM arangeOf
       if rs.isEmpty then none else some (.semverT o rs)
@@ -142,6 +150,12 @@ partial def tyStr : Ty → String
   | .rx p => "(rx " ++ hexB p ++ ")"
   | .pattern ps => "(pat" ++ String.join (ps.map fun p => " " ++ hexB p) ++ ")"
   | .tref s => "(tref " ++ hexB s ++ ")"
+  | .hash k v lo hi => s!"(hash {tyStr k} {tyStr v} {lo} {hi})"
+  | .like t n => "(like " ++ tyStr t ++ " " ++ hexB n ++ ")"
+  | .runtime rt n none => "(runtime " ++ hexB rt ++ " " ++ hexB n ++ " n)"
+  | .runtime rt n (some p) => "(runtime " ++ hexB rt ++ " " ++ hexB n ++ " " ++ hexB p ++ ")"
+  | .callable none => "callable"
+  | .callable (some ts) => "(callable" ++ String.join (ts.map fun t => " " ++ tyStr t) ++ ")"
   | .semverT o rs => if rangesEq rs matchAllR then "semver" else "(semver " ++ hexB (rangeStr o rs) ++ " " ++ hexB (normStr rs) ++ ")"
 
 partial def valStr : Val → String
